@@ -205,6 +205,66 @@ func c13StringCheck(c *fw.Ctx, content string, q byte) *fw.Violation {
 	return v
 }
 
+// c13StrPositions: the literal in every syntactic position where a string may stand, each time as the ONLY occurrence in
+// the program; the value it is compared with comes from the input document (the model's denotation of the literal, or "a"
+// when the literal has a bad escape and evaluating it must fail).
+var c13StrPositions = []struct {
+	name string
+	mk   func(x Expr, lit func() Expr) []Stmt
+}{
+	{"== right", func(x Expr, lit func() Expr) []Stmt { return []Stmt{Pr(Bin("==", x, lit()))} }},
+	{"== left", func(x Expr, lit func() Expr) []Stmt { return []Stmt{Pr(Bin("==", lit(), x))} }},
+	{"!= right", func(x Expr, lit func() Expr) []Stmt { return []Stmt{Pr(Bin("!=", x, lit()))} }},
+	{"< and >=", func(x Expr, lit func() Expr) []Stmt { return []Stmt{Pr(Bin("<", x, lit())), Pr(Bin(">=", lit(), x))} }},
+	{"if condition", func(x Expr, lit func() Expr) []Stmt {
+		return []Stmt{&If{Cond: Bin("==", x, lit()), Then: Pr(S("then")), Else: Pr(S("else"))}}
+	}},
+	{"match pattern", func(x Expr, lit func() Expr) []Stmt {
+		return []Stmt{Pr(&MatchExpr{Subj: x, Cases: []MatchCase{{Pats: []Expr{lit()}, Body: S("hit")}, {Pats: []Expr{V("_")}, Body: S("miss")}}})}
+	}},
+	{"match subject", func(x Expr, lit func() Expr) []Stmt {
+		return []Stmt{Pr(&MatchExpr{Subj: lit(), Cases: []MatchCase{{Pats: []Expr{V("m")}, Body: Bin("==", V("m"), x)}}})}
+	}},
+	{"index key", func(x Expr, lit func() Expr) []Stmt {
+		return []Stmt{Ex(Asg("=", V("o"), &ObjLit{})), Ex(Asg("=", Idx(V("o"), lit()), N("1"))), Pr(Idx(V("o"), x), CallE(Mem(V("o"), "length")))}
+	}},
+	{"call argument", func(x Expr, lit func() Expr) []Stmt { return []Stmt{Pr(Bin("==", CallE(V("id"), lit()), x))} }},
+	{"array element and object value", func(x Expr, lit func() Expr) []Stmt {
+		return []Stmt{Pr(Bin("==", Idx(Arr_(lit()), N("0")), x)), Ex(Asg("=", V("o"), &ObjLit{Keys: []string{"k"}, Vals: []Expr{lit()}})), Pr(Bin("==", Mem(V("o"), "k"), x))}
+	}},
+	{"method receiver", func(x Expr, lit func() Expr) []Stmt { return []Stmt{Pr(Bin("==", CallE(Mem(lit(), "length")), CallE(Mem(x, "length"))))} }},
+	{"printf argument", func(x Expr, lit func() Expr) []Stmt {
+		return []Stmt{Ex(CallE(V("printf"), S("%s|%v|"), lit(), x)), Pr(S(""))}
+	}},
+	{"contains argument", func(x Expr, lit func() Expr) []Stmt { return []Stmt{Pr(CallE(Mem(Arr_(x), "contains"), lit()))} }},
+	{"&& operand and return value", func(x Expr, lit func() Expr) []Stmt {
+		return []Stmt{Pr(Bin("&&", lit(), Bin("==", x, x))), Pr(Bin("==", CallE(V("lit")), x))}
+	}},
+}
+
+func c13StringPosCheck(c *fw.Ctx, content string, q byte, pos int) *fw.Violation {
+	if strings.IndexByte(content, q) >= 0 {
+		return nil
+	}
+	den, ok := Unescape(content)
+	if !ok {
+		den = "a"
+	}
+	lit := func() Expr { return &RawStrLit{Raw: content, Quote: q} }
+	id := &Func{Name: "id", Params: []string{"v"}, Body: Blk(&Return{X: V("v")})}
+	funcs := []*Func{id}
+	if c13StrPositions[pos].name == "&& operand and return value" {
+		funcs = append(funcs, &Func{Name: "lit", Body: Blk(&Return{X: lit()})})
+	}
+	body := append([]Stmt{Pr(S("before"))}, c13StrPositions[pos].mk(V("$"), lit)...)
+	pc := &progCase{P: &Program{Funcs: funcs, Rules: []*Rule{{Body: Blk(body...)}}}, Files: []inFile{{"in.json", "[" + ToJSONText(Str(den)) + "," + ToJSONText(Str(den+"x")) + "]"}}}
+	v, res, skipped := pc.check(c)
+	if !skipped && v == nil {
+		c.State("string literal as " + c13StrPositions[pos].name + " -> " + res.Kind)
+	}
+	return v
+}
+
 // ----- (iv) numerals -----
 
 func c13NumeralCheck(c *fw.Ctx, text string) *fw.Violation {
@@ -267,7 +327,7 @@ func init() {
 		ID: "C13",
 		Rule: fmt.Sprintf("(i) %d seed programs (every statement and expression form) as token lists: every gap x its permitted deviations (two blanks, tab, CR, newline and comment+newline where DESIGN.md 3.18 allows a line break, ';' / blank lines / CRLF / a comment for statement separators) and every pair of such deviations (thorough: triples on the gaps of a line-break-only deviation set); ", ns) +
 			"oracle: same stdout, outcome and JSON output as the canonical layout (which the model confirms); (ii) every ordered pair and triple of the 66 token spellings written without blanks, and with one blank, through the lexer hook against a reference lexer written from 3.18 (segmentation, token class, lexical validity); " +
-			"(iii) all string literal contents of length <= 3 (thorough 4) over {a, blank, #, ', \", \\, n, t, q, é} in both quote styles against the model's escape rules; (iv) numerals incl. leading zeros and 25-digit integers / fractions against a math/big nearest-double oracle, and every numeral-operator-numeral spelling without blanks; " +
+			"(iii) all string literal contents of length <= 3 (thorough 4) over {a, blank, #, ', \", \\, n, t, q, é} in both quote styles against the model's escape rules, concatenated / assigned and as the only literal of the program in 14 syntactic positions (operand of == != < >= on either side, if condition, match pattern and subject, index key, call / printf / contains argument, array element, object value, method receiver, && operand, return value) compared with the denoted string supplied by the input; (iv) numerals incl. leading zeros and 25-digit integers / fractions against a math/big nearest-double oracle, and every numeral-operator-numeral spelling without blanks; " +
 			"(v) every keyword with a letter, digit or underscore glued before or after it used as a variable; states = lexical classes and literal outcomes; non-trivial = escapes that yield a value",
 		Plan:  func(t fw.Tier) int { return ns*layoutParts + nt + 4 },
 		Bound: func(t fw.Tier) string { return "k=2 layout deviations (thorough: +k=3 over line-break deviations); token pairs and triples; strings <= 3 (4)" },
@@ -332,6 +392,10 @@ func init() {
 					for _, q := range []byte{'"', '\''} {
 						s := c13Spec{Form: "string", Text: cur, Q: string(q)}
 						c.Do(func() any { return s }, func() *fw.Violation { return c13StringCheck(c, cur, q) })
+						for pos := range c13StrPositions {
+							sp := c13Spec{Form: "stringpos", Text: cur, Q: string(q), Seed: pos}
+							c.Do(func() any { return sp }, func() *fw.Violation { return c13StringPosCheck(c, cur, q, sp.Seed) })
+						}
 					}
 					if n == L {
 						return
@@ -394,6 +458,8 @@ func init() {
 				return c13LexCheck(c, s.Text)
 			case "string":
 				return c13StringCheck(c, s.Text, s.Q[0])
+			case "stringpos":
+				return c13StringPosCheck(c, s.Text, s.Q[0], s.Seed)
 			case "numeral":
 				return c13NumeralCheck(c, s.Text)
 			case "glue":
